@@ -112,12 +112,14 @@ Definition ip4_dst (p : slice) : res bytes := (s <- sl p 16 20 ;; Ok (view s))%r
 Definition ip4_payload (p : slice) : res slice :=
   (ihl <- ip4_ihl p ;; tl <- ip4_totlen p ;; sl p ihl tl)%res.
 
-(* IsValid() == nil : n >= 20 && n >= IHL && n >= TotalLen (short-circuit) *)
+(* IsValid() == nil : n >= 20 && IHL >= 20 && n >= IHL && TotalLen >= IHL && n >= TotalLen
+   (short-circuit; the IHL >= 20 and TotalLen >= IHL conditions since the VIEWS repairs of DESIGN #3) *)
 Definition ip4_is_valid (p : slice) : res bool :=
   let n := len p in
   if Nat.leb 20 n then
     (ihl <- ip4_ihl p ;;
-     if Nat.leb ihl n then (tl <- ip4_totlen p ;; Ok (Nat.leb tl n)) else Ok false)%res
+     if Nat.leb 20 ihl && Nat.leb ihl n
+     then (tl <- ip4_totlen p ;; Ok (Nat.leb ihl tl && Nat.leb tl n)) else Ok false)%res
   else Ok false.
 
 (* the checksum write shared by SetPayload and AppendPayload:
@@ -218,11 +220,12 @@ Definition ip6_nextheader (p : slice) : res N := idx p 6.
 Definition ip6_hoplimit (p : slice) : res N := idx p 7.
 Definition ip6_src (p : slice) : res bytes := (s <- sl p 8 24 ;; Ok (view s))%res.
 Definition ip6_dst (p : slice) : res bytes := (s <- sl p 24 40 ;; Ok (view s))%res.
-Definition ip6_payload (p : slice) : res slice := slfrom p 40.
-(* IsValid: len(p) >= 40 && int(PayloadLen()+40) == len(p) ; PayloadLen()+40 is uint16 arithmetic *)
+(* Payload: p[40 : 40+PayloadLen] (repo commit 31b163e; was p[40:]) *)
+Definition ip6_payload (p : slice) : res slice := (pl <- ip6_payloadlen p ;; sl p 40 (40 + N.to_nat pl))%res.
+(* IsValid: len(p) >= 40 && int(PayloadLen())+40 <= len(p) (repo commit 28b2fc9; was == in uint16) *)
 Definition ip6_is_valid (p : slice) : res bool :=
   if Nat.leb 40 (len p)
-  then (pl <- ip6_payloadlen p ;; Ok (Nat.eqb (N.to_nat (u16 (pl + 40))) (len p)))%res
+  then (pl <- ip6_payloadlen p ;; Ok (Nat.leb (N.to_nat pl + 40) (len p)))%res
   else Ok false.
 
 (* func (p IP6) SetPayload(b []byte, nextHeader uint8) IP6 *)
@@ -236,8 +239,9 @@ Definition ip6_append (p : slice) (b : bytes) (b_is_nil : bool) (nh : N) : res s
   let blen := List.length b in
   if b_is_nil || Nat.ltb (cap p - len p) blen then Err EPayloadTooBig else
   (p <- reslice p (len p + blen) ;;
-   p <- copyfrom p 40 b ;;
-   p <- put16 p 4 (u16 (N.of_nat blen)) ;;
+   p <- put16 p 4 (u16 (N.of_nat blen)) ;;          (* payload length first: Payload() spans it (31b163e) *)
+   pl <- ip6_payloadlen p ;;
+   p <- copyto p 40 (40 + N.to_nat pl) b ;;          (* copy(p.Payload(), b) *)
    seti p 6 nh)%res.
 
 (* ================================================================ *)
